@@ -158,11 +158,14 @@ func NewLine2Buffer(out chan<- []*Line2) Line2Writer {
 
 func (a *Line2Buffer) Write(in []*Line2) error {
 	a.lock.Lock()
+	verifEv("lb.write", len(in), len(a.buf))
 	a.buf = append(a.buf, in...)
 	if len(a.buf) >= lBufferSize {
+		verifEv("lb.send", len(a.buf), 0)
 		a.out <- a.buf
 		a.buf = make([]*Line2, 0, lBufferSize+lBufferMargin)
 	}
+	verifEv("lb.unlock", len(a.buf), 0)
 	a.lock.Unlock()
 	return nil
 }
@@ -170,10 +173,13 @@ func (a *Line2Buffer) Write(in []*Line2) error {
 // Close flushes out any remaining lines in the buffer.
 func (a *Line2Buffer) Close() error {
 	a.lock.Lock()
+	verifEv("lb.close", len(a.buf), 0)
 	if len(a.buf) != 0 {
+		verifEv("lb.send", len(a.buf), 1)
 		a.out <- a.buf
 		a.buf = nil
 	}
+	verifEv("lb.unlock", len(a.buf), 1)
 	a.lock.Unlock()
 	return nil
 }
